@@ -137,6 +137,8 @@ func threadRun(L *LState) {
 
 	defer func() {
 		if rcv := recover(); rcv != nil {
+			// the coroutine is dead: every local of it goes out of scope
+			L.closeUpvalues(0)
 			var lv LValue
 			if v, ok := rcv.(*ApiError); ok {
 				lv = v.Object
